@@ -213,9 +213,11 @@ def get_rc_shape(rep):
         # positional agreement of the remaining arguments with the callee's parameters
         cal = rep.f(ITSD, callee)
         names = [norm(a) for a in c.args]
-        okp = names == cal.params[: len(names)] and not c.keywords
+        # caller parameters must go to the like-named callee parameter; the fresh centre graph goes to `rc`
+        expect = [(rc if p_ == "rc" else p_) for p_ in cal.params[: len(names)]]
+        okp = names == expect and not c.keywords
         if c.keywords:
-            okp = all(k.arg == norm(k.value) for k in c.keywords) and names == cal.params[: len(names)]
+            okp = all(k.arg == norm(k.value) for k in c.keywords) and names == expect
         rep.ob(oid, "SRC", fi, okp, c, f"arguments of {callee} are bound to the like-named parameters",
                {"args": names, "params": cal.params}, node=c)
     for callee in ("_add_charge_change_nodes", "_reconnect_rc_edges"):
